@@ -9,6 +9,7 @@ package webrtc
 
 import (
 	"fmt"
+	"github.com/pion/interceptor"
 	"net"
 	"sort"
 	"strconv"
@@ -401,6 +402,10 @@ type vfPeer struct {
 	cands      []string // OnICECandidate ("nil" for end of gathering)
 }
 
+// vfPeerInterceptors: peers created while it is set get pion's default interceptors (NACK
+// generator and responder, RTCP reports, TWCC); a worker process runs one case at a time.
+var vfPeerInterceptors bool
+
 type vfPeerOpt func(se *SettingEngine, me *MediaEngine, cfg *Configuration)
 
 func vfNewPeer(name string, nw transport.Net, opts ...vfPeerOpt) (*vfPeer, error) {
@@ -431,7 +436,15 @@ func vfNewPeer(name string, nw transport.Net, opts ...vfPeerOpt) (*vfPeer, error
 			return nil, err
 		}
 	}
-	api := NewAPI(WithSettingEngine(se), WithMediaEngine(me))
+	apiOpts := []func(*API){WithSettingEngine(se), WithMediaEngine(me)}
+	if vfPeerInterceptors {
+		ir := &interceptor.Registry{}
+		if err := RegisterDefaultInterceptors(me, ir); err != nil {
+			return nil, err
+		}
+		apiOpts = append(apiOpts, WithInterceptorRegistry(ir))
+	}
+	api := NewAPI(apiOpts...)
 	time.Sleep(time.Nanosecond) // PeerConnection ids are time.Now().UnixNano(): keep them distinct
 	pc, err := api.NewPeerConnection(cfg)
 	if err != nil {
